@@ -501,3 +501,15 @@ func SameExpr(info *types.Info, a, b ast.Expr) bool {
 	}
 	return false
 }
+
+// MentionsConst reports whether n contains a reference to named constant "pkg.NAME".
+func MentionsConst(info *types.Info, n ast.Node, name string) bool {
+	found := false
+	ast.Inspect(n, func(x ast.Node) bool {
+		if e, ok := x.(ast.Expr); ok && ConstObjName(info, e) == name {
+			found = true
+		}
+		return !found
+	})
+	return found
+}
